@@ -22,7 +22,7 @@ class ND(generic.Desc):
     sim_module = "Sim_NotifierDelay"
     trace_module = "Trace_NotifierDelay"
     driver = "nd_driver.py"
-    rule = ("a trace is one NotifierDelay (period 1 ms .. 100 ms) with a schedule of loop-body durations (shorter than, equal "
+    rule = ("a trace is one NotifierDelay (period 1 ms .. 2 s, int or float seconds; every fifth with an application clock installed through RobotController.setTimeSource) with a schedule of loop-body durations (shorter than, equal "
             "to, just over and several times the period) and wait()/free() calls; non-trivial when at least one wait() "
             "found its alarm already past (overrun); distinct by hash of the schedule")
     assumptions = ["the HAL simulator's notifier alarms and FPGA clock behave like the real ones; the wrapper around "
